@@ -10,7 +10,7 @@ RULE = ('per case (operator/back-end, base, query batch, budget setting in {tota
         'reference rows (which must equal an un-budgeted run) and the number of observation points; then ONE RUN '
         'PER FAULT POINT: (D) every Deadline read from the k-th on says expired / 0 ms left, k = 1..N_D; '
         '(A) the k-th z3 Optimize.check() returns unknown without running, (B) after running, k = 1..N_Z '
-        '(all points when N <= 48, else a stratified sample); (H) in parallel evaluation the k-th worker never returns (sleeping worker, virtualised join time-out), k = 1..#queries. Each faulted run is followed by an un-faulted call '
+        '(all points when N <= 48, else a stratified sample); (H) in parallel evaluation the k-th worker never returns (sleeping worker, virtualised join time-out), k = 1..#queries; (P) a virtual clock makes the preprocessing of the operator use 0.6x / 1.0x / 2.5x of the total budget, so that the budget arithmetic yields a zero or negative per-query budget. Each faulted run is followed by an un-faulted call '
         'on the same manager. Verdict per run: no exception escapes; every row is flagged (inference_timed_out '
         'or preprocessing_timed_out) with result False, or equals the reference. Decisions use logical indices '
         'only. Non-trivial = fault point that changed the outcome (some row flagged); distinct by '
@@ -20,8 +20,8 @@ ASSUMPTIONS = ['a real expiry inside a native solver call is represented by chec
 TRUSTED = ['interposition wrappers on Deadline and z3.Optimize.check (vf/instrument.py)']
 FLOOR = {'quick': 300, 'thorough': 3000}
 BUDGET = {'quick': 110, 'thorough': 1800}
-N = {'quick': 450, 'thorough': 6000}
-REQUIRED = {'quick': {'fault_runs_D': 300, 'fault_runs_A': 80, 'fault_runs_B': 80, 'fault_runs_H': 40, 'parallel_fault_runs': 40},
+N = {'quick': 520, 'thorough': 7000}
+REQUIRED = {'quick': {'fault_runs_D': 300, 'fault_runs_A': 80, 'fault_runs_B': 80, 'fault_runs_H': 40, 'fault_runs_P': 30, 'parallel_fault_runs': 40},
             'thorough': {'fault_runs_D': 3000, 'fault_runs_A': 1500, 'fault_runs_B': 1500, 'fault_runs_H': 600, 'parallel_fault_runs': 400}}
 RECYCLE = 40
 BUDGETS = [dict(total_timeout=1000), dict(preprocessing_timeout=1000), dict(inference_timeout=1000),
@@ -32,7 +32,8 @@ PLAN = [('system-w', 'rc2', 'D'), ('lex_inf', 'rc2', 'D'), ('c-inference', 'rc2'
         ('system-w', 'z3', 'D'), ('lex_inf', 'z3', 'D'),
         ('system-w', 'z3', 'A'), ('lex_inf', 'z3', 'A'), ('system-w', 'z3', 'B'), ('lex_inf', 'z3', 'B'),
         ('p-entailment', '', 'D'), ('system-z', '', 'D'),
-        ('system-w', 'rc2', 'H'), ('lex_inf', 'z3', 'H'), ('c-inference', 'rc2', 'H'), ('system-z', '', 'H')]
+        ('system-w', 'rc2', 'H'), ('lex_inf', 'z3', 'H'), ('c-inference', 'rc2', 'H'), ('system-z', '', 'H'),
+        ('p-entailment', '', 'P'), ('system-z', '', 'P'), ('system-w', 'rc2', 'P'), ('lex_inf', 'z3', 'P')]
 
 
 def cases(tier, seed):
@@ -111,6 +112,26 @@ def run_case(case):
         res['inconclusive'].append('un-budgeted reference raised %s: %s' % (type(e).__name__, str(e)[:120]))
         return res
 
+    clock = {'offset': 0, 'jump_ns': 0}
+    if kind == 'P':
+        # virtual clock for the budget arithmetic: the timer used by the preprocessing wrapper jumps forward
+        # while the operator-specific preprocessing runs, as if it had used up (part of) the total budget
+        import inference.inference as _ii
+        from inference.inference import Inference as _Inf
+        _orig_pc = _ii.perf_counter_ns
+        _ii.perf_counter_ns = lambda: _orig_pc() + clock['offset']
+        budget = {'total_timeout': 1000}
+        _patched = []
+        for cls in list(_Inf.__subclasses__()):
+            if '_preprocess_belief_base' in cls.__dict__:
+                orig_pp = cls.__dict__['_preprocess_belief_base']
+
+                def pp(self_i, weakly_, deadline_, _o=orig_pp):
+                    r = _o(self_i, weakly_, deadline_)
+                    clock['offset'] += clock['jump_ns']
+                    return r
+                cls._preprocess_belief_base = pp
+                _patched.append((cls, orig_pp))
     dl = instrument.DeadlineFaults()
     of = instrument.OptimizeFaults()
     mon = instrument.ProcMon() if multi else None
@@ -149,6 +170,8 @@ def run_case(case):
             nD = nD + 12
             nZ = 12 if (p == 'z3') else 0
         n = nD if kind == 'D' else nZ
+        if kind == 'P':
+            n = 3       # preprocessing 'takes' 0.6x, 1.0x, 2.5x of the total budget (virtual clock)
         if kind == 'H':
             n = len(q1)            # fault point = which worker never returns (virtualised join time-out)
         bump('observation_points_' + kind, cname, n)
@@ -165,6 +188,8 @@ def run_case(case):
             if kind == 'H':
                 sched.hang = {k}
                 mon.hung_keys = {k}
+            if kind == 'P':
+                clock['jump_ns'] = int([0.6, 1.0, 2.5][k - 1] * 1000 * 1e9)
             m = manager()
             tag = 'fault=%s,k=%d/%d' % (kind, k, n)
             bump('fault_runs_' + kind)
@@ -227,6 +252,10 @@ def run_case(case):
                     viol('budget:later-call-unflagged-wrong-answer:fault-%s' % kind, at=tag, row=j, rows=r2,
                          reference=ref2, first_call_rows=r1)
     finally:
+        if kind == 'P':
+            _ii.perf_counter_ns = _orig_pc
+            for cls, orig_pp in _patched:
+                cls._preprocess_belief_base = orig_pp
         if sched:
             sched.uninstall()
         if mon:
